@@ -43,6 +43,9 @@ class Subset(Harness):
                 else:
                     v = sym_cell(self.kind, "v")
                     inp["cond"] = {"kind": self.variant, "col": "x", "value": scalar_of(v, self.kind)}
+                if self.variant == "kw2":
+                    # two colname=value pairs: rows matching both
+                    inp["cond"]["col2"] = "y"; inp["cond"]["value2"] = scalar_of(sym_cell("f", "w"), "f")
         elif m in ("slice", "slice_off"):
             if choice("rows_given", [True, False]):
                 k = choice("nidx", range(0, self.maxn + 1) if n > 0 else [0])
@@ -129,6 +132,9 @@ class Subset(Harness):
                 v = c["value"]
                 vc = as_cell(v, k) if k != "O" else (v if not isinstance(v, int) or isinstance(v, symx.SymI64) else symx.SymPyInt(v))
                 sel = lambda i: np_eq(X[i], vc, k)
+                if c["kind"] == "kw2":
+                    wc = as_cell(c["value2"], "f"); Y = data.cols["y"].cells
+                    sel = lambda i: z3.And(np_eq(X[i], vc, k), np_eq(Y[i], wc, "f"))
             keep_iff((lambda i: sel(i)) if m == "filter" else (lambda i: z3.Not(sel(i))))
         elif m == "slice" and inp["rows"] is None:
             cl.append(("all rows kept in order", T(rids == list(range(n)))))
@@ -177,6 +183,9 @@ def harnesses(tier):
             if quick and variant != "kw" and k not in ("f", "T"): continue
             hs.append(Subset("filter", k, N, variant))
         hs.append(Subset("filter_out", k, N, "kw"))
+        if not quick or k in ("f", "T"):
+            hs.append(Subset("filter", k, N, "kw2"))
+            hs.append(Subset("filter_out", k, N, "kw2"))
     hs.append(Subset("filter", "f", N, "mask"))
     hs.append(Subset("filter_out", "f", N, "mask"))
     for m in ("slice", "slice_off", "head", "tail", "sample"):
